@@ -106,33 +106,24 @@ def trimSuffix (s suf : Bytes) : Bytes :=
 
 /-! ### regexp methods on byte strings -/
 
-/-- the byte widths of the runes of `s` -/
-def runeWidths : Nat → Bytes → List Nat
-  | 0, _ => []
-  | _, [] => []
-  | fuel + 1, s => let (_, w) := decodeRune s; w :: runeWidths fuel (s.drop w)
-
-/-- indices of the runes that survive `re.ReplaceAll(s, "")`: every leftmost-first match is
-    deleted (an empty match just advances one rune) -/
-def keptIndices (re : Re) : Nat → Option Rune → List Rune → Nat → List Nat
-  | 0, _, _, _ => []
-  | _, _, [], _ => []
-  | fuel + 1, prev, c :: cs, idx =>
-    match Re.m re prev (c :: cs) fun _ rest => some rest.length with
+/-- `string(re.ReplaceAll([]byte(s), []byte{}))`, byte-exact: every leftmost-first match is deleted
+    (an empty match deletes nothing and the scan advances one rune); the runes that are kept keep
+    their original bytes, also when they are invalid UTF-8.  `prev` is the rune before the position
+    (what `^` and `\b`-like assertions look at). -/
+def deleteAllAux (re : Re) : Nat → Option Rune → Bytes → Bytes
+  | 0, _, _ => []
+  | _, _, [] => []
+  | fuel + 1, prev, s =>
+    let runes := decodeRunes s
+    let cw := decodeRune s
+    match Re.m re prev runes fun _ rest => some rest.length with
     | some rem =>
-      let n := (c :: cs).length - rem
-      if n == 0 then idx :: keptIndices re fuel (some c) cs (idx + 1)
-      else keptIndices re fuel (((c :: cs).take n).getLast?) ((c :: cs).drop n) (idx + n)
-    | none => idx :: keptIndices re fuel (some c) cs (idx + 1)
+      let n := runes.length - rem
+      if n == 0 then s.take cw.2 ++ deleteAllAux re fuel (some cw.1) (s.drop cw.2)
+      else deleteAllAux re fuel ((runes.take n).getLast?) (s.drop (Css.runesByteLen n s))
+    | none => s.take cw.2 ++ deleteAllAux re fuel (some cw.1) (s.drop cw.2)
 
-/-- `string(re.ReplaceAll([]byte(s), []byte{}))`, byte-exact (kept runes keep their
-    original bytes, also when they are invalid UTF-8) -/
-def deleteAll (re : Re) (s : Bytes) : Bytes :=
-  let runes := decodeRunes s
-  let widths := runeWidths (s.length + 1) s
-  let kept := keptIndices re (runes.length + 1) none runes 0
-  let offs := (widths.foldl (fun (acc : List Nat × Nat) w => (acc.1 ++ [acc.2], acc.2 + w)) ([], 0)).1
-  kept.flatMap fun i => (s.drop (offs.getD i 0)).take (widths.getD i 1)
+def deleteAll (re : Re) (s : Bytes) : Bytes := deleteAllAux re (s.length + 1) none s
 
 /-- `re.FindString(s)` -/
 def findString (re : Re) (s : Bytes) : Bytes :=
